@@ -137,6 +137,7 @@ def case_tables(prog, cfg):
     """C08: survival / outflow-probability tables against the documented formula, and their validity identities"""
     sw = SW(prog, cfg["n_t"], cfg["labels"], grid=cfg.get("grid"))
     sw.prm_values = cfg.get("prm_values")
+    sw.zero_prm = cfg.get("zero_prm")
     sw.layout = cfg.get("layout")
     dist = cfg["dist"]
     case = SCase("tables", f"{dist}._survival_by_year_id", cfg_desc(cfg))
@@ -205,6 +206,7 @@ def inflow_driven(sw, dist, cfg, drv="in"):
 def case_inflow_driven(prog, cfg):
     sw = SW(prog, cfg["n_t"], cfg["labels"], grid=cfg.get("grid"))
     sw.prm_values = cfg.get("prm_values")
+    sw.zero_prm = cfg.get("zero_prm")
     sw.layout = cfg.get("layout")
     dist = cfg["dist"]
     case = SCase("inflow-driven", "InflowDrivenDSM.compute", cfg_desc(cfg))
@@ -332,6 +334,7 @@ def case_stock_driven(prog, cfg):
     """C10 (+C03/C09/C16 for the stock-driven model)"""
     sw = SW(prog, cfg["n_t"], cfg["labels"], grid=cfg.get("grid"))
     sw.prm_values = cfg.get("prm_values")
+    sw.zero_prm = cfg.get("zero_prm")
     sw.layout = cfg.get("layout")
     dist = cfg["dist"]
     case = SCase("stock-driven", "StockDrivenDSM.compute", cfg_desc(cfg))
@@ -410,6 +413,7 @@ def case_zero_roundtrip(prog, cfg):
     """C10 at the zero driver: the round trip must return zero flows AND the (zero) cohort tables, like for any other driver"""
     sw = SW(prog, cfg["n_t"], cfg["labels"], grid=cfg.get("grid"))
     sw.prm_values = cfg.get("prm_values")
+    sw.zero_prm = cfg.get("zero_prm")
     sw.layout = cfg.get("layout")
     dist = cfg["dist"]
     case = SCase("zero-roundtrip", "StockDrivenDSM.compute", dict(cfg_desc(cfg), driver="identically zero"))
@@ -488,6 +492,7 @@ def case_failed_compute(prog, cfg):
     the stock as it was.  Whether compute() raises at all is not demanded (the manual solver propagates the NaN)."""
     sw = SW(prog, cfg["n_t"], cfg["labels"], grid=cfg.get("grid"))
     sw.prm_values = cfg.get("prm_values")
+    sw.zero_prm = cfg.get("zero_prm")
     sw.layout = cfg.get("layout")
     dist, solver = cfg["dist"], cfg["solver"]
     case = SCase("failed-compute", "StockDrivenDSM.compute", dict(cfg_desc(cfg), solver=solver,
@@ -531,6 +536,7 @@ def case_failed_compute(prog, cfg):
 def case_simple(prog, cfg):
     sw = SW(prog, cfg["n_t"], cfg["labels"], grid=cfg.get("grid"))
     sw.prm_values = cfg.get("prm_values")
+    sw.zero_prm = cfg.get("zero_prm")
     sw.layout = cfg.get("layout")
     case = SCase("flow-driven", "SimpleFlowDrivenStock.compute", cfg_desc(cfg))
 
@@ -565,6 +571,7 @@ def case_history(prog, cfg, cls_name, hist):
     freshly built object holding the same driver and parameters"""
     sw = SW(prog, cfg["n_t"], cfg["labels"], grid=cfg.get("grid"))
     sw.prm_values = cfg.get("prm_values")
+    sw.zero_prm = cfg.get("zero_prm")
     sw.layout = cfg.get("layout")
     dist = cfg["dist"]
     qual = f"{cls_name}.compute"
@@ -708,6 +715,11 @@ def table_configs(tier):
                         vias += ("attributes",)
                     for via in vias:
                         out.append(dict(n_t=n_t, labels=labels, dist=dist, over=over, n_pts=n_pts, inflow_at=ia, via=via))
+    # a parameter that is exactly zero for one label next to generic values for the others (a special case taken for one label must
+    # not spill over to the others)
+    for dist, prm in (("NormalLifetime", "std"),):      # (folded normal: mean / 0 is an infinity, not modelled)
+        for over in ("labels", "all"):
+            out.append(dict(n_t=3, labels=("a",), dist=dist, over=over, n_pts=1, inflow_at="middle", via="set_prms", zero_prm=prm))
     # an equidistant grid (x0, x0+h, ...): shortcuts for "all intervals equally long" are taken there and only there
     for dist in DISTS:
         for labels in ((), ("a",)):
